@@ -55,6 +55,24 @@ def classify(ctx, eff, func, concrete, call, depth=0):
         if isinstance(tgt, ast.Attribute) and dotted(tgt.value) == "self":
             return _attr(func, tgt.attr, par)
         return "stored", f"stored in `{norm(tgt)}` and never released in this method"
+    if isinstance(par, ast.Call) and call in par.args:
+        # handed to a generator of the repository: the suspended generator holds it until it is exhausted
+        from ..paths import _is_generator
+
+        t = ctx.resolver.resolve(par, func, concrete)
+        if t.kind == "repo" and t.funcs and all(g is not None and _is_generator(g) for g in t.funcs):
+            gp_ = pm.get(par)
+            kept = None
+            if isinstance(gp_, ast.Assign) and any(isinstance(tg, ast.Attribute) and dotted(tg.value) == "self" for tg in gp_.targets):
+                kept = "self." + [tg.attr for tg in gp_.targets if isinstance(tg, ast.Attribute)][0]
+            elif isinstance(gp_, ast.Return):
+                kept = "the caller (it is returned)"
+            if kept is not None:
+                bound = any(g.cls is not None for g in t.funcs)
+                return "generator", (f"handed to the generator {t.funcs[0].qualname}, which is kept in {kept}: the file stays open until the generator has been "
+                                     "run to its end" + ("; while it is suspended its frame refers to the handler, a reference cycle that dropping "
+                                                         "protocol.handler does not release - a write that fails half-way through the menu leaves the file open"
+                                                         if bound else ""))
     if isinstance(par, (ast.Call, ast.Attribute, ast.Expr, ast.keyword, ast.Starred)):
         return "temp", None  # temporary: dropped when the expression completes
     return "temp", None
